@@ -167,6 +167,7 @@ let actor_of = function "loop" -> M.ALoop | _ -> M.AOther
 let kev_of (a : string list) : M.wev option =
   match a with
   | ["kpend"; ac; up; k; n] -> Some (M.KPend (actor_of ac, b up, nat k, b n))
+  | ["kforeign"; k; n] -> Some (M.KForeign (nat k, b n))
   | ["kcur"; ac; up; n] -> Some (M.KCur (actor_of ac, b up, b n))
   | ["kstatus"; v; n] -> Some (M.KStatus (nat v, b n))
   | ["kconc"; c; n] -> Some (M.KConc (nat c, b n))
@@ -234,3 +235,36 @@ let () =
            | M.Inl _ -> bad := true; mismatch l s (Printf.sprintf "slice resp %s: channel operation not enabled in the model (second send, send after close, double close, receive of a value that was not sent)" !tag))
       end) evs;
     rbuf := [])
+
+(* ---------------- pool node (coq/SlicePool.v) ---------------- *)
+let pbuf : (int * string * M.pev option) list ref = ref []
+
+let pev_of (a : string list) : M.pev option =
+  match a with
+  | ["ngetspawn"; t; g] -> Some (M.NGetSpawn (nat t, nat g))
+  | ["npush"; t] -> Some (M.NPush (nat t))
+  | ["npop"; t] -> Some (M.NPop (nat t))
+  | ["nsendjob"; t] -> Some (M.NSendJob (nat t))
+  | ["nrecvjob"; t] -> Some (M.NRecvJob (nat t))
+  | ["nsendstop"; t] -> Some (M.NSendStop (nat t))
+  | ["nrecvstop"; t] -> Some (M.NRecvStop (nat t))
+  | ["nput"; t] -> Some (M.NPut (nat t))
+  | _ -> None
+
+let () =
+  register "POOL" (fun _ _ a -> (match a with t :: _ -> tag := t | _ -> ()); pbuf := []);
+  register "p" (fun ln line a -> pbuf := (ln, line, pev_of a) :: !pbuf);
+  register "ENDPOOL" (fun ln line _ ->
+    let evs = List.rev !pbuf in
+    incr checked;
+    (match List.find_opt (fun (_, _, r) -> r = None) evs with
+     | Some (l, s, _) -> mismatch l s ("slice pool " ^ !tag ^ ": unknown record")
+     | None ->
+       let raws = List.filter_map (fun (_, _, r) -> r) evs in
+       (match M.prun_idx M.pinit raws M.O with
+        | M.Inr _ -> ()
+        | M.Inl i ->
+          let k = int_of_nat i in
+          let (l, s, _) = List.nth evs k in
+          mismatch l s (Printf.sprintf "slice pool %s: event %d is not enabled in the model (a payload sent by a thread that does not own the node, a node pushed twice, ...)" !tag k)));
+    pbuf := [])
